@@ -118,7 +118,7 @@ fn run_case(ctx: &mut Ctx, rng: &mut Rng, stage: &str, xdir: &str) {
         "C13" if stage == "cli" => cliprops::c13_cli(ctx, rng, xdir),
         "C13" => dictprops::c13_case(ctx, rng),
         "C14" => trainprops::c14_case(ctx, rng),
-        "C15" if stage == "cli" => cliprops::c15_cli(ctx, rng, xdir),
+        "C15" | "C18" if stage == "cli" => cliprops::c15_cli(ctx, rng, xdir),
         "C15" => trainprops::c15_case(ctx, rng),
         "C16" => trainprops::c16_case(ctx, rng),
         "C17" => trainprops::c17_case(ctx, rng),
